@@ -205,6 +205,49 @@ func values(args []string) error {
 				}
 			}
 		}
+		// a frame whose body is REFUSED after it wrote something: an extension owner with the extension left out
+		// and an unregistered key (the frame encoders' error path is part of every history the model explores)
+		var cands [][2]string // (extension table, frame table) pairs
+		for _, xt := range vh.TableNames() {
+			xtab := vh.S.Tables[xt]
+			if vh.IsFrame(xtab.Owner) {
+				continue
+			}
+			for _, ft := range vh.TableNames() {
+				ftab := vh.S.Tables[ft]
+				if !vh.IsFrame(ftab.Owner) {
+					continue
+				}
+				hasLen := false // a frame that computes its own length (the frame encoders with several steps)
+				for _, f := range vh.S.Types[ftab.Owner].Fields {
+					if f.Kind == "len" {
+						hasLen = true
+					}
+				}
+				for _, e := range ftab.Entries {
+					if e.Type == xtab.Owner && hasLen {
+						cands = append(cands, [2]string{xt, ft})
+					}
+				}
+			}
+		}
+		if len(cands) > 0 {
+			c := cands[int(*seed)%len(cands)]
+			xtab, ftab := vh.S.Tables[c[0]], vh.S.Tables[c[1]]
+			body := g.Value(xtab.Owner, vh.Canon)
+			body[xtab.KeyField] = []int{'9', 'Z', '9'}
+			body[vh.BodyField(xtab.Owner).Name] = map[string]any{"_t": "nil"}
+			fv := g.Value(ftab.Owner, vh.Canon)
+			for _, e := range ftab.Entries {
+				if e.Type == xtab.Owner {
+					fv[ftab.KeyField] = e.Key
+				}
+			}
+			fv[vh.BodyField(ftab.Owner).Name] = body
+			if err := emit(ftab.Owner, fv); err != nil {
+				return err
+			}
+		}
 		return emit("sample.SubPacket", g.Value("sample.SubPacket", vh.Canon))
 	}
 	filter := vh.ParseFilter(*only)
